@@ -42,6 +42,26 @@ type Cue struct {
 	Lines []Line `json:"lines"`
 }
 
+// Freedoms of a row: things the property sentence leaves to the reader, each with exactly two admissible readings.
+const (
+	// FreeBlank: a spacing attribute other than colour / size / box (flash 0x08, steady 0x09, mosaic colours
+	// 0x10..0x17, conceal 0x18, contiguous / separated mosaics 0x19 0x1A, ESC 0x1B, black / new background 0x1C
+	// 0x1D, hold / release mosaics 0x1E 0x1F) stands inside the box: level-1 display shows a blank cell there, a
+	// text extractor may as well give nothing.
+	FreeBlank = 1 << iota
+	// FreeMosaicColour: capital letters (columns 4 and 5, shown as alphanumerics also in mosaics mode) follow a
+	// mosaic colour code: the code may or may not count as a "colour code" that splits the run and colours them.
+	FreeMosaicColour
+)
+
+// RowReading selects one admissible reading per freedom (zero value: the reader gives nothing for the other
+// spacing attributes and does not take mosaic colour codes for colour codes) and the deviant reading Restyle.
+type RowReading struct {
+	Blank        bool // other spacing attributes inside the box are blanks
+	MosaicColour bool // mosaic colour codes split runs and colour what follows
+	Restyle      bool // deviant (known defect shape): a colour/size code outside the box restyles the run collected so far
+}
+
 // DecodeRow decodes the 40 cells of a row as the property sentence describes: only text inside a box
 // (start box 0x0B .. end box 0x0A) counts, decoded in the given national sub-set; colour codes
 // (0x00..0x07) and size codes (0x0C..0x0F) end a run and set the attribute of what follows; a
@@ -49,12 +69,13 @@ type Cue struct {
 // dropped before flattening (so a different but equivalent segmentation is not a difference).
 // unsettled is non-empty when the row contains something the sentence does not decide.
 func DecodeRow(row int, cells []byte, bad []int, nat Subset) (l Line, unsettled string) {
-	return decodeRow(row, cells, bad, nat, false)
+	l, unsettled, _ = decodeRow(row, cells, bad, nat, RowReading{})
+	return
 }
 
-// decodeRow with restyle=true is a *deviant* reading used only to recognise a known defect shape: a
-// colour/size code met outside the box does not end the run collected so far but restyles it.
-func decodeRow(row int, cells []byte, bad []int, nat Subset, restyle bool) (l Line, unsettled string) {
+// decodeRow under a reading; free reports which freedoms the row actually exercises.
+func decodeRow(row int, cells []byte, bad []int, nat Subset, rd RowReading) (l Line, unsettled string, free int) {
+	restyle := rd.Restyle
 	l.Row = row
 	isBad := map[int]bool{}
 	for _, b := range bad {
@@ -74,6 +95,7 @@ func decodeRow(row int, cells []byte, bad []int, nat Subset, restyle bool) (l Li
 	started := false
 	colour, size := "", ""
 	bigSince0C := ""
+	mosaics, concealed := false, false // since the last alpha colour code
 	for i := 0; i < 40; i++ {
 		c := byte(0x20)
 		if i < len(cells) {
@@ -86,6 +108,7 @@ func decodeRow(row int, cells []byte, bad []int, nat Subset, restyle bool) (l Li
 		switch {
 		case c <= 0x07:
 			colour = ColourNames[c]
+			mosaics, concealed = false, false
 			if restyle && !started {
 				for k := range run {
 					run[k].Colour = colour
@@ -124,9 +147,34 @@ func decodeRow(row int, cells []byte, bad []int, nat Subset, restyle bool) (l Li
 				bigSince0C = size
 			}
 		case c < 0x20:
-			unsettled = fmt.Sprintf("spacing attribute 0x%02x", c)
+			// flash, steady, mosaic colours, conceal, mosaic shapes, ESC, backgrounds, hold / release
+			if c >= 0x10 && c <= 0x17 {
+				mosaics = true
+				if rd.MosaicColour {
+					colour = ColourNames[c-0x10]
+					flush()
+				}
+			}
+			if c == 0x18 {
+				concealed = true
+			}
+			if started {
+				free |= FreeBlank
+				if rd.Blank {
+					run = append(run, SChar{R: ' ', Colour: colour, Size: size})
+				}
+			}
 		default:
 			if started {
+				if c != 0x20 && concealed {
+					unsettled = "text after a conceal code"
+				}
+				if c != 0x20 && mosaics {
+					if c < 0x40 || c > 0x5f {
+						unsettled = "mosaic character"
+					}
+					free |= FreeMosaicColour
+				}
 				run = append(run, SChar{R: G0(c, nat), Colour: colour, Size: size})
 			}
 		}
@@ -183,6 +231,9 @@ type Variant struct {
 	DupRows      bool // a row number received k times in an instance yields k lines (of its final content)
 	Lenient      bool // in the two undecided shapes reception continues (instead of reporting Unsettled)
 	Restyle      bool // a colour/size code outside the box restyles the run collected so far instead of ending it
+	// not deviant: the other admissible reading of a freedom (see FreeBlank, FreeMosaicColour)
+	Blank        bool
+	MosaicColour bool
 }
 
 // Expectation is what a reader must return for a stream.
@@ -193,6 +244,7 @@ type Expectation struct {
 	Retransmitted bool   // some instance received the same row number more than once
 	Designated    bool   // a well-coded X/28/0 format 1 or M/29/0 of the selected magazine designated a default G0 set
 	HexAlias      bool   // a header with a hexadecimal page digit was seen whose decimal reading equals the selected page's
+	Free          int    // freedoms (FreeBlank | FreeMosaicColour) exercised by the rows of the cues
 }
 
 // UnsettledDesignation is the Unsettled text for a designation that contradicts the page header.
@@ -229,7 +281,7 @@ func Expect(s Stream, o ReadOpts, v Variant) (x Expectation) {
 		}
 	} else {
 		for i, es := range s.ES {
-			if es.Descriptor == "teletext" || es.Descriptor == "vbi" {
+			if es.IsTeletext() {
 				idx = i
 				break
 			}
@@ -280,6 +332,26 @@ func Expect(s Stream, o ReadOpts, v Variant) (x Expectation) {
 				continue
 			}
 			pk := u.Packet
+			if len(pk.FlipBits) > 0 {
+				// Hamming 8/4: one wrong bit per byte is corrected; two are detected. An address byte (or, in a
+				// header, a page number byte) with two wrong bits rejects the packet; anything else is not decided here.
+				reject := false
+				for _, k := range pk.FlipBits {
+					i := k / 8
+					n := pk.HamErrors(i)
+					switch {
+					case i > 9 || (i > 1 && pk.Kind != KHeader) || n > 2:
+						x.Unsettled = "transmission error outside the Hamming 8/4 protected bytes or more than two wrong bits in a byte"
+					case n == 2 && i <= 3:
+						reject = true
+					case n == 2:
+						x.Unsettled = "uncorrectable sub-code / control byte"
+					}
+				}
+				if reject {
+					continue
+				}
+			}
 			switch pk.Kind {
 			case KHeader:
 				m := 0
@@ -304,6 +376,9 @@ func Expect(s Stream, o ReadOpts, v Variant) (x Expectation) {
 					if open != nil {
 						open.end, open.desig = t, desig
 						done = append(done, open)
+					}
+					if pk.C7to10&8 != 0 {
+						x.Unsettled = "C10 inhibit display set on the selected page"
 					}
 					open = &instance{start: t, nat: pk.Nat, rows: map[int]*Packet{}}
 					strict, lenient = true, true
@@ -382,10 +457,11 @@ func Expect(s Stream, o ReadOpts, v Variant) (x Expectation) {
 		sort.Ints(rows)
 		text := false
 		for _, r := range rows {
-			l, u := decodeRow(r, in.rows[r].Cells, in.rows[r].BadParity, in.nat, v.Restyle)
+			l, u, fr := decodeRow(r, in.rows[r].Cells, in.rows[r].BadParity, in.nat, RowReading{Blank: v.Blank, MosaicColour: v.MosaicColour, Restyle: v.Restyle})
 			if u != "" {
 				x.Unsettled = u
 			}
+			x.Free |= fr
 			if len(l.Chars) > 0 {
 				text = true
 			}
